@@ -1,74 +1,42 @@
 /-
-Tier N: the interleaving order of `polynomials::structure` against ISO (7.6, Table 9), per
-(version, level): the k-th data codeword pushed comes from block `b`, position `i` where (b, i) is
-the k-th entry of the ISO data order, i.e. source index = offset(b) + i; all source indices are below
-`data_codewords`; there are exactly `data_codewords` of them; and the EC store positions
-`data_codewords + j * blocks + b` follow the ISO EC order and stay below the total codeword count.
+The interleaving facts per (version, level) — since round 8 WITHOUT `native_decide`:
+`interleaveOk` (the crate's push order = ISO order, closed-form offsets, bounds) and `sizesOk` are evaluated by the kernel, one
+module per level (Finite/InterleaveK); `ecLayoutOk` and `deintOk` (what de-interleaving by ISO Table 9 reads back) follow from
+them by the symbolic lemmas of Proofs/InterleaveSym.lean, which hold for every list of block sizes.
 -/
-import FastQr.Model.Poly
-import FastQr.Spec.Decode
+import FastQr.Finite.InterleaveK.PL
+import FastQr.Finite.InterleaveK.PM
+import FastQr.Finite.InterleaveK.PQ
+import FastQr.Finite.InterleaveK.PH
+import FastQr.Proofs.InterleaveSym
 
 namespace FastQr.Finite
 open FastQr Model Spec
 
-/-- start offset of block `b` in the data codeword sequence -/
-def blockOffset (sizes : List Nat) (b : Nat) : Nat := (sizes.take b).foldl (· + ·) 0
+theorem interleave_both (l : ECL) (v : Nat) (hv : v < 40) : interleaveOk l v = true ∧ sizesOk l v = true := by
+  have h : ∀ (f : Nat → Bool), (List.range 40).all f = true → f v = true := fun f hf =>
+    List.all_eq_true.mp hf v (List.mem_range.mpr hv)
+  cases l
+  · simpa using h _ interleaveOk_pL
+  · simpa using h _ interleaveOk_pM
+  · simpa using h _ interleaveOk_pQ
+  · simpa using h _ interleaveOk_pH
 
-def interleaveOk (l : ECL) (v : Nat) : Bool :=
-  let g := T.groups l v
-  let idxs := dataIdxs g.1 g.2.1 g.2.2.1 g.2.2.2
-  let sizes := Decode.blockSizes v l
-  let order := Decode.dataOrder sizes
-  let dc := T.dataCodewords l v
-  let nb := g.1 + g.2.2.1
-  let ec := (T.generator l v).length - 1
-  idxs.length == dc && order.length == dc && sizes.length == nb && Decode.ecLen v l == ec &&
-  (idxs.zip order).all (fun (idx, bi) => idx == blockOffset sizes bi.1 + bi.2 && decide (idx < dc)) &&
-  -- EC: the (j, b)-th store position is data_codewords + (position of (b, j) in the ISO EC order)
-  ((Decode.ecOrder nb ec).zipIdx.all fun (bj, k) => dc + bj.2 * nb + bj.1 == dc + k) &&
-  decide (dc + ec * nb = T.maxBytes v) && decide (T.maxBytes v + 1 ≤ 5430) &&
-  -- block start offsets used by the EC loops are the ISO ones
-  ((List.range g.1).all fun i => i * g.2.1 == blockOffset sizes i) &&
-  ((List.range g.2.2.1).all fun i => g.2.1 * g.1 + i * g.2.2.2 == blockOffset sizes (i + g.1)) &&
-  ((List.range g.1).all fun i => sizes.getD i 0 == g.2.1) &&
-  ((List.range g.2.2.1).all fun i => sizes.getD (i + g.1) 0 == g.2.2.2)
+theorem all_levels_versions (f : ECL → Nat → Bool) (h : ∀ l v, v < 40 → f l v = true) :
+    (ECL.all.all fun l => (List.range 40).all fun v => f l v) = true := by
+  simp only [List.all_eq_true, List.mem_range]
+  intro l _ v hv
+  exact h l v hv
 
-theorem interleaveOk_all : (ECL.all.all fun l => (List.range 40).all fun v => interleaveOk l v) = true := by
-  native_decide
+theorem interleaveOk_all : (ECL.all.all fun l => (List.range 40).all fun v => interleaveOk l v) = true :=
+  all_levels_versions _ fun l v hv => (interleave_both l v hv).1
 
+theorem ecLayoutOk_all : (ECL.all.all fun l => (List.range 40).all fun v => ecLayoutOk l v) = true :=
+  all_levels_versions _ fun l v hv =>
+    Proofs.InterleaveSym.ecLayoutOk_of l v (interleave_both l v hv).1 (interleave_both l v hv).2
 
-/-- de-interleaving by ISO Table 9 undoes the crate's interleaving: reading, block after block, the
-sequence positions ISO assigns to the block, and looking up which source index the crate put there,
-enumerates the source indices 0, 1, …, data_codewords - 1 in order -/
-def deintOk (l : ECL) (v : Nat) : Bool :=
-  let g := T.groups l v
-  let idxs := dataIdxs g.1 g.2.1 g.2.2.1 g.2.2.2
-  let sizes := Decode.blockSizes v l
-  let dc := T.dataCodewords l v
-  ((List.range sizes.length).flatMap fun b => (Decode.blockPositions sizes b).map fun k => idxs.getD k dc)
-    == List.range dc
-
-/-- the ISO de-interleaving positions in closed form: block `b` takes its EC codewords from EC-part
-positions b, nb + b, 2 nb + b, …; its data codewords from the positions where the crate put source
-indices offset(b), offset(b) + 1, …; the Table 9 block sizes add up to `data_codewords` -/
-def ecLayoutOk (l : ECL) (v : Nat) : Bool :=
-  let g := T.groups l v
-  let idxs := dataIdxs g.1 g.2.1 g.2.2.1 g.2.2.2
-  let sizes := Decode.blockSizes v l
-  let nb := sizes.length
-  let ec := Decode.ecLen v l
-  let dc := T.dataCodewords l v
-  sizes.foldl (· + ·) 0 == dc &&
-  (List.range nb).all fun b =>
-    Decode.ecPositions nb ec b == (List.range ec).map (fun j => j * nb + b) &&
-    decide (blockOffset sizes b + sizes.getD b 0 ≤ dc) &&
-    (Decode.blockPositions sizes b).map (fun k => idxs.getD k dc) ==
-      (List.range (sizes.getD b 0)).map (fun i => blockOffset sizes b + i)
-
-theorem ecLayoutOk_all : (ECL.all.all fun l => (List.range 40).all fun v => ecLayoutOk l v) = true := by
-  native_decide
-
-theorem deintOk_all : (ECL.all.all fun l => (List.range 40).all fun v => deintOk l v) = true := by
-  native_decide
+theorem deintOk_all : (ECL.all.all fun l => (List.range 40).all fun v => deintOk l v) = true :=
+  all_levels_versions _ fun l v hv =>
+    Proofs.InterleaveSym.deintOk_of l v (interleave_both l v hv).1 (interleave_both l v hv).2
 
 end FastQr.Finite
